@@ -42,9 +42,7 @@ def CONCATENATE(
     may not be available in future versions of Excel.
     """
 
-    return CONCAT(
-        [func_xltypes.Text.cast(parameter) for parameter in parameters]
-    )
+    return CONCAT(list(parameters))
 
 
 @xl.register()
